@@ -34,9 +34,10 @@ def run(ck):
         "arbitrary chain versions, interleaved at single requests / list pages; in a third of the cases a cleanup "
         "stops (its request fails) after its k-th deletion; distinct = different schedules; non-trivial = at least "
         "three calls",
-        "Theorems C10_* cover the cleanup's decisions for every listing; interleavings are covered by the "
-        "correspondence (model of the request-level machines vs the real server, every request and the final "
-        "store) and by the retention audit evaluated on the real store after every schedule.",
+        "Theorems C10_* cover the cleanup's decisions for every listing and an inductive invariant over all "
+        "schedules with cleanup machines (retained versions, the cut behind a stored snapshot, losers never on "
+        "the chain); the same request-level machines are compared with the real server on every generated "
+        "schedule (every request and the final store), and the retention audit is evaluated on the real store.",
         trusted_extra=["hook MemStore/MemService stands for the object store; creation times are set by the harness"])
 
 
